@@ -953,6 +953,9 @@ def _argsort(ex, st, args, kwargs, node):
             return st.alloc(c, res_prev)
         if cn0 is None and a_prev.elem is a.elem:
             return st.alloc(c, res_prev)
+    if cn0 == 1:          # one element: the only permutation
+        c.last_perm = ((lambda i: z3.IntVal(0)), (lambda j: z3.IntVal(0)))
+        return st.alloc(c, Arr((1,), lambda ix: 0, 'int', inv=lambda j: 0))
     if cn0 is not None:
         vals = [a.elem((k,)) for k in range(cn0)]
         cv = [conc_int(x) if not isinstance(x, float) else x for x in vals]
